@@ -1220,6 +1220,45 @@ func ruleReindex(c *Ctx) {
 		}
 		c.check(every, s.Key+":index-current", s.P.Pos(), "the scanned position is stored into the hash table on every iteration ("+firstPath+")",
 			"the scanned position is not stored into a hash table on every iteration of the scan: position i−1 may be missing as a candidate for position i (runs are then not compressed)")
+		// (3) every table that receives the scanned position on every iteration also receives the positions
+		// covered by a match (the re-index loops after the emissions of this scan): a table that is only kept
+		// current on literal steps points into the past after a match, and the stale candidate cuts the next
+		// match short
+		if len(s.Emits) > 0 {
+			scanT, reT := map[string]bool{}, map[string]bool{}
+			for _, ti := range mine {
+				if fi.loopOf(ti.in.Block()) == s.L && fi.lin(stripConv(ti.pos)).eq(P) {
+					dom := true
+					for _, lt := range s.L.Latches {
+						if !(ti.in.Block() == lt || ti.in.Block().Dominates(lt)) {
+							dom = false
+						}
+					}
+					if dom {
+						scanT[ti.path] = true
+					}
+				} else if l2 := fi.loopOf(ti.in.Block()); l2 != nil && l2 != s.L {
+					after := false
+					for _, e := range s.Emits {
+						if e.Block.Dominates(l2.Header) {
+							after = true
+						}
+					}
+					if after {
+						reT[ti.path] = true
+					}
+				}
+			}
+			var missing []string
+			for t := range scanT {
+				if !reT[t] {
+					missing = append(missing, t)
+				}
+			}
+			sort.Strings(missing)
+			c.check(len(missing) == 0, s.Key+":reindex-all-tables", s.P.Pos(), fmt.Sprintf("every table kept current by the scan (%d) is also updated for the positions covered by a match", len(scanT)),
+				fmt.Sprintf("the table(s) %v receive the scanned position on every iteration but not the positions covered by a match: after a match their entries point into the past, and the next match found through them is cut short (a block inside a byte run then ends in literals)", missing))
+		}
 		// (2) after each emission a counting loop stores i+1 … min(next, bound)−1
 		for _, e := range s.Emits {
 			key := e.Key + ":reindex"
@@ -1309,6 +1348,7 @@ func ruleReindex(c *Ctx) {
 
 func ruleCandMeasured(c *Ctx) {
 	scans, _ := c.scanLoops()
+	doneCandLoop := map[*Loop]bool{}
 	for _, s := range scans {
 		fi := s.fi
 		if len(c.tableInsertsIn(s)) == 0 {
@@ -1382,6 +1422,24 @@ func ruleCandMeasured(c *Ctx) {
 							bad = fmt.Sprintf("block %d abandons the candidate under %s", x.Index, condString(fi, cd))
 						}
 					}
+				}
+				// the loop over the candidates of a bucket runs to its end: an early exit gives up every
+				// candidate behind the current one
+				if inner != nil && inner != s.L && !doneCandLoop[inner] {
+					doneCandLoop[inner] = true
+					early := ""
+					for x := range inner.Blocks {
+						if x == inner.Header {
+							continue
+						}
+						for _, sc := range x.Succs {
+							if !inner.Blocks[sc] {
+								early = fmt.Sprintf("block %d leaves the candidate loop under %s", x.Index, factStrings(fi.factsOf(fi.edgeConds(x, sc))))
+							}
+						}
+					}
+					c.check(early == "", fmt.Sprintf("%s:all-candidates", s.Key), inner.Header.Instrs[0].Pos(), "the loop over the candidates of a bucket has no early exit",
+						"the loop over the candidates of a bucket can be left early ("+early+"): a genuine entry that looks like the end marker (position 0 with hash input 0) hides every candidate stored behind it, and matches that exist are not found")
 				}
 				c.check(bad == "", key, v.Pos(), "the candidate is abandoned before measurement only on value mismatch, window test or one-byte pre-check",
 					"a table candidate can be abandoned before it is measured for another reason ("+bad+"): a genuine entry (e.g. position 0 with hash input 0) is taken for an empty slot and the run/match is not found")
